@@ -43,6 +43,8 @@ def file_effects(cg: CallGraph, fqs: Set[str]) -> List[str]:
 
 def check(ctx):
     repo = ctx.repo
+    ctx.rule("R19.5", "the device snapshot a Solution keeps is independent of the live device: Device.copy copies the layer, the polygons and the probe "
+                      "points, so the seed-device comparison sees later edits (shared with C18 R18.3)", 2)
     ctx.rule("R19.4", "validation checks the options, it does not change them (only a solver name is replaced by its enum member)", 1)
     ctx.rule("R19.1", "every validation site precedes the first statement that can create a file or directory", 4)
     ctx.rule("R19.2", "after that point only state-dependent failures (RuntimeError, I/O) can be raised, up to a short allow-list", 1)
@@ -131,6 +133,11 @@ def check(ctx):
 
     guards(ctx, f_init, f_solve)
     option_ranges(ctx)
+    from ..report import Shared
+    from . import c18
+    c18.check(Shared(ctx, {"R18.3": "R19.5"},
+                     consequence="the device stored in a Solution follows in-place edits of the live device (e.g. layer.london_lambda): a seed solution computed "
+                                 "for other parameters is accepted as matching and the run starts from a state of another problem"))
     ctx.assume("R15.1-2 cover rejections that come from the handler itself")
     from ..effects import options_readonly
     options_readonly(ctx, "R19.4", "an inconsistent or unusual option set is silently 'repaired' instead of being used as given or rejected")
